@@ -158,6 +158,7 @@ func vReceive(kind int) {
 
 	var rpc hrpc.Call
 	var calls []hrpc.Call
+	var inflightCancel context.CancelFunc
 	var mkResp func() proto.Message // built only for frames whose header is in order
 	var plain proto.Message
 	switch kind {
@@ -192,7 +193,9 @@ func vReceive(kind int) {
 		// a multi of 2..3 calls over two regions; one of them may have been dropped at send
 		// time because its context had expired (m.calls[i] == nil)
 		m := newMulti(3)
-		calls = []hrpc.Call{vGet(ctx, "a", regA), vPut(ctx, "n", regB)}
+		cctx, ccancel := context.WithCancel(ctx)
+		inflightCancel = ccancel
+		calls = []hrpc.Call{vGet(cctx, "a", regA), vPut(ctx, "n", regB)}
 		if verifChoose(2) == 1 {
 			calls = append(calls, vGet(ctx, "b", regA))
 		}
@@ -273,6 +276,12 @@ func vReceive(kind int) {
 		declared-- // frame boundary inside the cellblock
 	}
 
+	gaveUp := false
+	if inflightCancel != nil && len(cells) > 0 && verifBool() {
+		// the caller of the first call gives up while the request is in flight
+		inflightCancel()
+		gaveUp = true
+	}
 	err := c.receive(&vReader{b: vFrame(body, declared)})
 	vPending, vUnmarshalFails = nil, nil
 
@@ -288,6 +297,10 @@ func vReceive(kind int) {
 		verifReach("left-registered")
 	} else {
 		for _, cl := range calls {
+			if gaveUp && cl.Context().Err() != nil {
+				verifAssert(vResults(cl) <= 1, "a caller that gave up gets at most one result")
+				continue
+			}
 			verifAssert(vResults(cl) == 1, "every live call of the answered request gets exactly one result")
 		}
 		verifReach("answered")
